@@ -17,7 +17,7 @@ RULE = ('(i) round trip rdkit_to_networkx(networkx_to_rdkit(G)) on generator mol
         'conformer every node carries a finite 3D position. (ii) embed_3d_via_rdkit(G) on resolver outputs and shuffled '
         'copies, and embedd_cg_molecule_via_rdkit (one call) on single molecules and on systems of 2-3 unconnected molecules '
         'with atoms shared between fragments: every node has a finite position and every bond of G has a length within '
-        '[0.70, 1.25] x (sum of covalent radii). (iii) forward_map_molecule on resolver outputs (cut molecules, virtual particles, periodic copolymers with one fragment name on several beads) with annotated / random positive weights and synthetic '
+        '[0.70, 1.25] x (sum of covalent radii). (iii) forward_map_molecule on resolver outputs (cut molecules, virtual particles, periodic copolymers with one fragment name on several beads; three-level strings whose top level is mapped from the middle level with the weights written on its beads) with annotated / random positive weights and synthetic '
         'positions: bead = sum(w x)/sum(w) over exactly the nodes of the bead\'s graph, and translating all atoms by t '
         'moves every bead by t. Inputs are restricted to molecules on which RDKit\'s aromaticity perception agrees with the '
         'generator\'s and that RDKit sanitises; embedding failures are counted, not judged. distinct = (sub-check, feature '
@@ -33,9 +33,68 @@ SIZES = {'quick': dict(round=1600, embed=192, fmap=800), 'thorough': dict(round=
 RADII = {'H': 0.31, 'C': 0.76, 'N': 0.71, 'O': 0.66, 'F': 0.57, 'P': 1.07, 'S': 1.05, 'Cl': 1.02, 'Br': 1.20}
 
 
+def chain_map_case(rng):
+    """three resolutions, mapped in a chain: the middle level's beads get positions, the top level is forward-mapped from them
+    with the weights WRITTEN on the middle-level beads"""
+    names = rng.sample(['B', 'C', 'D', 'E'], rng.randint(2, 3))
+    wts = {nm: rng.choice([1.0, 0.25, 0.5, 2.0, 0.1]) for nm in names}
+    spell = lambda nm: '[#%s]' % nm if wts[nm] == 1.0 and rng.random() < 0.7 else '[#%s;w=%s]' % (nm, wts[nm])
+    units = {}
+    for u in ('P', 'Q')[:rng.randint(1, 2)]:
+        seq = [rng.choice(names) for _ in range(rng.randint(2, 4))]
+        units[u] = '[$]' + ''.join(spell(nm) for nm in seq) + '[$]'
+    atoms = {nm: rng.choice(['[$]CC[$]', '[$]C(=O)O[$]', '[$]COC[$]', '[$]CN[$]']) for nm in names}
+    top = ''.join('[#%s]' % rng.choice(list(units)) for _ in range(rng.randint(1, 4)))
+    s = '{%s}.{%s}.{%s}' % (top, ','.join('#%s=%s' % kv for kv in units.items()), ','.join('#%s=%s' % kv for kv in atoms.items()))
+    return dict(kind='chainmap', string=s, weights=wts, sub_seed=rng.randrange(10 ** 6), nheavy=4,
+                features=['forward_map_from_a_middle_level', 'weights_written_on_middle_level_beads'])
+
+
+def run_chainmap(case):
+    import numpy as np
+    from cgsmiles import MoleculeResolver
+    from cgsmiles.coordinates import forward_map_molecule
+    contracts.clear()
+    rng = random.Random(case['sub_seed'])
+    viol, counters = [], {}
+    txt = case['string']
+    try:
+        r = MoleculeResolver.from_string(txt)
+        top, mid = r.resolve()
+        if rng.random() < 0.5:
+            r.resolve()           # the atomistic level is resolved as well before the middle level is used
+    except Exception as err:
+        contracts.clear()
+        return {'violations': [], 'rejected': {'chain_case_not_resolvable_' + type(err).__name__: 1}, 'nontrivial': False, 'cls': ('skipped',), 'sample': txt}
+    pos = {n: np.array([rng.uniform(-5, 5) for _ in range(3)]) for n in mid.nodes}
+    for n in mid.nodes:
+        mid.nodes[n]['position'] = pos[n].copy()
+    try:
+        forward_map_molecule(top, mid)
+        for k in top.nodes:
+            gr = top.nodes[k].get('graph')
+            if gr is None or not len(gr):
+                continue
+            w = {n: case['weights'][mid.nodes[n]['atomname']] for n in gr.nodes}
+            want = sum(w[n] * pos[n] for n in gr.nodes) / sum(w.values())
+            got = np.array(top.nodes[k]['position'], dtype=float)
+            if not np.allclose(got, want, atol=1e-9, rtol=0):
+                viol.append(V('c18.bead_not_weighted_mean', f'{txt} [top level mapped from the middle level]: bead {k} at {got.tolist()}, weight-normalised mean of its beads {want.tolist()} '
+                              f'(beads {[mid.nodes[n]["atomname"] for n in gr.nodes]}, written weights {[w[n] for n in gr.nodes]})'))
+                break
+        counters['beads_checked'] = len(top)
+        counters['chain_mappings'] = 1
+    except Exception as err:
+        viol.append(V('c18.forward_map_exception.' + type(err).__name__, f'{txt} [top level mapped from the middle level]: raised {type(err).__name__}: {err}'))
+    contracts.clear()
+    return {'violations': viol, 'rejected': {}, 'counters': counters, 'nontrivial': True, 'cls': ('chainmap', len(top), len(mid)), 'sample': txt}
+
+
 def cases(seed, tier, shard, nshards):
     cfg = SIZES[tier]
     rng = random.Random(f'{seed}:C18:{tier}:{shard}')
+    for _ in range(max(2, cfg['fmap'] // (8 * nshards))):
+        yield chain_map_case(rng)
     plan = ['round'] * (cfg['round'] // nshards) + ['embed'] * (cfg['embed'] // nshards) + ['fmap'] * (cfg['fmap'] // nshards)
     for what in plan:
         if what == 'embed' and rng.random() < 0.3:
@@ -234,6 +293,8 @@ def run(case):
     from cgsmiles.rdkit import networkx_to_rdkit, rdkit_to_networkx, embed_3d_via_rdkit
     from cgsmiles.coordinates import forward_map_molecule
     RDLogger.DisableLog('rdApp.*')
+    if case.get('kind') == 'chainmap':
+        return run_chainmap(case)
     contracts.clear()
     rng = random.Random(case['sub_seed'])
     viol, rejected, counters = [], {}, {}
